@@ -214,11 +214,40 @@ def async_std_backend(repo: Path):
         if 0 <= h < a and re.search(r'#\[cfg\(feature = "verif"\)\]\s*let future = crate::verif::controlled\((None|name), future\);', b):
             hooks.append(f)
     plain_spawn = norm(fn_body(src, "spawn", src.find("pub fn spawn<F>") if src.find("pub fn spawn<F>") >= 0 else 0))
+    # cfg twins in actor_cell.rs: the `#[cfg(feature = "async-std")]` block of listen_in_priority / run_with_signal
+    # equals the `#[cfg(not(feature = "async-std"))]` block once `(<e>).fuse()` / `<e>.fuse()` is read as `<e>`
+    cell = strip_comments(read(repo, "ractor/src/actor/actor_cell.rs"))
+
+    def cfg_blocks(body):
+        out = {}
+        for m in re.finditer(r'#\[cfg\((not\()?feature = "async-std"\)?\)\]\s*\{', body or ""):
+            i = m.end() - 1
+            depth, k = 0, i
+            while k < len(body):
+                if body[k] == "{":
+                    depth += 1
+                elif body[k] == "}":
+                    depth -= 1
+                    if depth == 0:
+                        break
+                k += 1
+            out["tokio" if m.group(1) else "async-std"] = body[i + 1:k]
+        return out
+
+    def unfuse(t):
+        t = norm(t)
+        t = re.sub(r"\((&mutself\.\w+)\)\.fuse\(\)", r"\1", t)
+        return t.replace(".fuse()", "")
+    twins = []
+    for f in ("listen_in_priority", "run_with_signal"):
+        b = cfg_blocks(fn_body(cell, f))
+        twins.append((f, "tokio" in b and "async-std" in b and unfuse(b["async-std"]) == norm(b["tokio"])
+                      and b["async-std"].count(".fuse()") == b["async-std"].count("=>")))
     return {
         "sleep": sleep_body, "timeout": timeout_body, "abort": abort_body, "is_finished": isfin_body,
         "spawn_calls": spawn_calls, "spawn_awaits": spawn_awaits, "spawn_then": spawn_then,
         "poll_arms": arms, "interval_init": interval_init, "tick_steps": tick_steps, "tick_stmts": tick_stmts,
-        "js_spawn": js_spawn, "js_next": js_next, "hooks": hooks, "plain_spawn": plain_spawn,
+        "js_spawn": js_spawn, "js_next": js_next, "hooks": hooks, "plain_spawn": plain_spawn, "twins": twins,
     }
 
 
@@ -422,6 +451,7 @@ def main():
         ab = {k: "" for k in ("sleep", "timeout", "abort", "is_finished", "interval_init", "js_spawn", "js_next", "plain_spawn")}
         ab.update({k: [] for k in ("spawn_calls", "spawn_awaits", "spawn_then", "poll_arms", "tick_steps", "hooks")})
         ab["tick_stmts"] = 0
+        ab["twins"] = []
     w("/-- async-std backend (`ractor/src/concurrency/async_std_primitives.rs`), whitespace-free source text -/")
     w(f"def asyncStdSleepBody : String := {lean_str(ab['sleep'])}")
     w(f"def asyncStdTimeoutBody : String := {lean_str(ab['timeout'])}")
@@ -439,6 +469,8 @@ def main():
     w(f"def asyncStdIntervalTickStatements : Nat := {ab['tick_stmts']}")
     w(f"def asyncStdJoinSetSpawnBody : String := {lean_str(ab['js_spawn'])}")
     w(f"def asyncStdJoinSetJoinNextBody : String := {lean_str(ab['js_next'])}")
+    w("/-- actor_cell.rs: the async-std cfg block of the function equals the tokio one modulo `.fuse()` -/")
+    w(f"def asyncStdSelectTwins : List (String × Bool) := [{', '.join(f'({lean_str(k)}, {str(v).lower()})' for k, v in ab['twins'])}]")
     w("/-- spawn functions whose future is wrapped by `verif::controlled` before the Abortable wrapper -/")
     w(f"def asyncStdVerifHooks : List String := {lean_strs(ab['hooks'])}")
     w("")
